@@ -9,6 +9,7 @@ package main
 
 import (
 	"fmt"
+	"math"
 	"strings"
 
 	kvql "github.com/c4pt0r/kvql"
@@ -190,7 +191,17 @@ func c08Emit(e *emitter, rp c08Replay) {
 	rp.Want = sliceOf(flat, rp.Start, rp.Count)
 	kindN := map[string]int{"LimitPlan": 0, "FinalLimitPlan": 1, "select": 2, "ordered": 3, "aggregated": 4, "delete": 5,
 		"aggregated-all": 6, "select-range": 7, "select-keys": 8, "delete-keys": 9}[rp.Kind]
-	term := fmt.Sprintf("Case %d %d %d %d %s %s %s", kindN, rp.B, rp.Start, rp.Count,
+	// offsets and counts beyond the end of the result are handed to the twin as len+1: the
+	// slice is the same one (Properties/C08.v: slice_saturates), and a nat numeral near 2^63
+	// cannot be written down
+	mStart, mCount := min(rp.Start, len(flat)+1), min(rp.Count, len(flat)+1)
+	if mStart != rp.Start || mCount != rp.Count {
+		e.count("offset_or_count_clamped_for_twin")
+	}
+	if rp.Start > 1<<40 || rp.Count > 1<<40 {
+		e.count("huge_offset_or_count")
+	}
+	term := fmt.Sprintf("Case %d %d %d %d %s %s %s", kindN, rp.B, mStart, mCount,
 		coqNatListList(rp.Chunks), optNatList(rp.HasBat, rp.ObsB), optNatList(rp.HasRow, rp.ObsR))
 	nontrivial := len(flat) > 0 && (rp.Start > 0 || rp.Count < len(flat))
 	idx := e.add(term, rp, nontrivial)
@@ -204,7 +215,7 @@ func c08Emit(e *emitter, rp c08Replay) {
 	default:
 		e.count("start=other")
 	}
-	if rp.Start+rp.Count > len(flat) {
+	if rp.Start > len(flat) || rp.Count > len(flat)-rp.Start {
 		e.count("slice_beyond_end")
 	}
 	bad := ""
@@ -566,6 +577,35 @@ func runC08(c *runCtx) error {
 							c08Emit(e, runNode(true, B, s, cnt, ch))
 						}
 					}
+				}
+			}
+		}
+	}
+	// huge offsets and counts (`limit s, 9223372036854775807` = everything after the first s
+	// rows): any arithmetic on offset+count in the machine's int wraps there
+	huge := []int{math.MaxInt64, math.MaxInt64 - 1, 1 << 62, 1<<63 - 32, 1 << 32}
+	for _, B := range []int{1, 2, 3, 32} {
+		for _, n := range []int{0, 1, B + 1, 2*B + 1} {
+			chs := chunkings(r, n, B, 1)
+			for _, hv := range huge {
+				for _, sm := range []int{0, 1, 2, B, B + 1} {
+					for _, final := range []bool{false, true} {
+						c08Emit(e, runNode(final, B, sm, hv, chs[0]))
+						c08Emit(e, runNode(final, B, hv, sm, chs[0]))
+					}
+				}
+				c08Emit(e, runNode(false, B, hv, hv, chs[0]))
+			}
+		}
+	}
+	for _, kind := range []string{"select", "ordered", "aggregated", "delete", "aggregated-all", "select-range", "select-keys", "delete-keys"} {
+		for _, B := range []int{2, 32} {
+			for _, n := range []int{0, 3, B + 2, 2*B + 1} {
+				for _, hv := range huge[:3] {
+					for _, sm := range []int{0, 1, 2, B} {
+						runStmtCase(e, kind, n, B, sm, hv)
+					}
+					runStmtCase(e, kind, n, B, hv, 2)
 				}
 			}
 		}
